@@ -245,8 +245,8 @@ def r18_2(ctx):
         closed = False
         for p in explore(acc, max_visits=1):
             if p.end == 'return':
-                d = [x for x in p.decisions if x[2][0] == 'bin' and x[2][1] == 'Eq' and any(is_call(y, '::len') for y in walk(x[2]))]
-                if d and d[-1][3] == 1:
+                d = [x for x in p.decisions if x[2][0] == 'bin' and x[2][1] in ('Eq', 'Ne') and any(is_call(y, '::len') for y in walk(x[2]))]
+                if d and ((d[-1][2][1] == 'Eq') == (d[-1][3] == 1)):
                     rv = p.ret()
                     closed = rv[0] == 'param' or (rv[0] == 'field' and rv[1][0] == 'param')
         ctx.check(R, closed, 'Subsequence:wam-closed', 'once the whole pattern was seen accept must keep the state (the always-match class is closed)', fn=acc)
